@@ -339,20 +339,31 @@ func parseAux(aux []byte) ([]sam.Aux, error) {
 		switch j := jumps[t]; {
 		case j > 0:
 			j += 3
+			if i+j > len(aux) {
+				return nil, errors.New("bam: truncated aux data")
+			}
 			aa = append(aa, sam.Aux(aux[i:i+j:i+j]))
 			i += j
 		case j < 0:
 			switch t {
 			case 'Z', 'H':
-				j := bytes.IndexByte(aux[i:], 0)
+				j := bytes.IndexByte(aux[i+3:], 0)
 				if j == -1 {
 					return nil, errors.New("bam: invalid zero terminated data: no zero")
 				}
+				j += 3
 				aa = append(aa, sam.Aux(aux[i:i+j:i+j]))
 				i += j + 1
 			case 'B':
+				if i+8 > len(aux) {
+					return nil, errors.New("bam: truncated aux data")
+				}
 				length := binary.LittleEndian.Uint32(aux[i+4 : i+8])
-				j = int(length)*jumps[aux[i+3]] + int(unsafe.Sizeof(length)) + 4
+				size := jumps[aux[i+3]]
+				if size <= 0 {
+					return nil, fmt.Errorf("bam: unrecognised array element type: %q", aux[i+3])
+				}
+				j = int(length)*size + int(unsafe.Sizeof(length)) + 4
 				if j < 0 || i+j < 0 || i+j > len(aux) {
 					return nil, fmt.Errorf("bam: invalid array length for aux data: %d", length)
 				}
